@@ -30,6 +30,8 @@ def cfg_args(c):
         a += ["--stats", c["stats"]]
     if c.get("ranks"):
         a += ["--ranks", c["ranks"], "--net", c.get("net", 0)]
+    if c.get("skew"):
+        a += ["--skew", c["skew"]]
     return a
 
 
@@ -37,7 +39,7 @@ def sample_cfg(r, emphasis=None):
     c = {"threads": r.choice([1, 2, 2, 3, 3, 4, 6]), "ckpt": r.choice([0, 1, 2, 3, 7]),
          "batch": r.choice([1, 1, 1, 2, 4, 64]), "period": r.choice([0, 0, 50, 400]),
          "sseed": r.randrange(1, 1 << 30), "switch": r.choice(["1/1", "1/2", "1/4", "1/8", "1/24", "1/96"]),
-         "policy": r.choice([0, 0, 0, 1, 2])}
+         "policy": r.choice([0, 0, 0, 1, 2]), "skew": r.choice([0, 0, 40, 400])}
     if emphasis:
         c.update(emphasis(r))
     return c
@@ -171,7 +173,7 @@ class Campaign:
         c = res["cfg"]
         self.stats["parallel_traces"] += 1
         key = (res["md"]["family"], res["md"]["mseed"], c.get("threads"), c.get("ckpt"), c.get("batch"), c.get("period"),
-               c.get("switch"), c.get("policy"), c.get("sseed"), c.get("term"), c.get("stop_at"), c.get("ranks"), c.get("net"))
+               c.get("switch"), c.get("policy"), c.get("sseed"), c.get("term"), c.get("stop_at"), c.get("ranks"), c.get("net"), c.get("skew"))
         self.stats["distinct_cfg"].add(key)
         v = res.get("v")
         if v:
